@@ -43,6 +43,7 @@ LEVEL_TEXT = ("Exploration: hundreds to thousands of stacks (all permutations of
               " Fortran-ordered, transposed and strided stacks; the rasteriser object is also re-used after another tree and a call with malformed ranges."
               " Trees naming one source file on one rasteriser; stacks holding only small integers (0/1 masks)."
               " Neurites lying in a plane thinner than a voxel; dtypes spelled as scalar type / dtype object / name; voxels whose level x maximum is an exact integer must convert exactly."
+              " The older single-channel front end (read_images: get_full, shape, indexing)."
               " Flat neurites in one optical section (a raster of one z slice, saved and read back); two rasters of one transformer taken slice by slice in turns.")
 LEVEL_NOTE = ("Raster workload bounded to proper round cones (segment longer than the radius "
               "difference by a margin) and trees with >= 2 nodes; a voxel centre within 1e-3 of the "
@@ -64,7 +65,7 @@ REQUIRED = ["io_roundtrips", "io_tiff", "io_npy", "io_nrrd", "io_uint_to_float",
             "io_small_integer_values", "io_dtype_spelled_as_object_or_name", "rasters_one_voxel_thick",
             "io_float_stacks_holding_exactly_one",
             "transformer_reused", "rejected_calls_before_raster", "rasters_interleaved",
-            "raster_one_slice_saved_and_read",
+            "raster_one_slice_saved_and_read", "io_older_gray_front_end",
             "tap_get_samplers"]
 FLOOR = {"quick": 450, "thorough": 45000}
 SHARDS = {"quick": 8, "thorough": 16}
@@ -241,6 +242,30 @@ def check_io(ctx, case, tmp):
     i, j, k = (int(v) // 2 for v in shape4[:3])
     if not np.array_equal(np.asarray(st[i, j, k]), b[i, j, k]):
         return ctx.violation("indexing-wrong", "stack[i, j, k] differs from get_full()[i, j, k]", case)
+    if shape4[3] == 1 and case["seed"] % 4 == 1:
+        # the older single-channel front end the library still exports: the same voxels without
+        # the channel axis, through get_full, shape and indexing
+        from swcgeom.images.io import read_images
+
+        with warnings.catch_warnings():
+            warnings.simplefilter("ignore")
+            gs = read_images(f, **kw)
+            ctx.count("io_older_gray_front_end")
+            try:
+                full, shp = np.asarray(gs.get_full()), tuple(gs.shape)
+                one = gs[i, j, k]
+                blk = np.asarray(gs[:, :, :])
+            except BaseException as e:
+                if isinstance(e, (KeyboardInterrupt, SystemExit)):
+                    raise
+                return ctx.violation("gray-front-end-raised",
+                                     f"read_images(...) of a {shape} {fmt} stack: "
+                                     f"{type(e).__name__}: {str(e)[:100]}", case)
+        if shp != tuple(shape4[:3]) or not np.array_equal(full, b[..., 0]) or \
+                not np.array_equal(blk, b[..., 0]) or not np.array_equal(np.asarray(one), b[i, j, k, 0]):
+            return ctx.violation("values-changed", f"read_images(...): shape {shp} / voxels differ "
+                                                   f"from read_imgs(...) without the channel axis",
+                                 case)
 
 
 # ------------------------------------------------------------------------------- raster
